@@ -10,6 +10,7 @@ CONSTANTS
   AllowNil = TRUE
   ChainOnly = TRUE
   WriteNewest = TRUE
+  AllowReduce = FALSE
   AllowCopy = FALSE
   EarlyStop = FALSE
   Emit = TRUE
